@@ -202,7 +202,9 @@ impl PeerModel {
                 self.live_ids.retain(|x| *x != id);
                 R::PubAck { pid: id, code, props: None }
             }
-            Pending::Pub2(id) => R::PubRec { pid: id, code, props: None },
+            // MQTT 5: every third PUBREC carries the success code "no matching subscribers"
+            // (0x10): the exchange goes on exactly as with 0x00
+            Pending::Pub2(id) => R::PubRec { pid: id, code: if self.ver5 && id % 3 == 0 { Some(0x10) } else { code }, props: None },
             Pending::Rel(id) => {
                 self.final_acks_sent += 1;
                 self.live_ids.retain(|x| *x != id);
